@@ -953,9 +953,10 @@ fn gen_pool2(rng: &mut Rng, stats: &mut Stats) -> String {
 
 /// Streams whose consumer has more than `TreeStreamerOnce`'s loaders and result queue can absorb outstanding at once:
 /// `kind 0` one directory with n distinct sub-directories, `kind 1` n distinct roots (n snapshots), `kind 2` a directory
-/// of m directories that all share the same n sub-directories.  n is beyond any "a few hundred / a thousand" queue bound.
+/// of m directories that all share the same n sub-directories.  n is beyond any "a few hundred / a thousand" queue bound;
+/// `kind 3` / `kind 4` (thorough tier) are kind 0 / kind 1 with n in 5000..=12000.
 fn gen_stream_wide(rng: &mut Rng, kind: u64, stats: &mut Stats) -> String {
-    let n = rng.range(1100, 1600);
+    let (n, kind) = if kind >= 3 { (rng.range(5000, 12_000), kind - 3) } else { (rng.range(1100, 1600), kind) };
     let seed = rng.below(1000);
     let pool = gen_pool(rng, stats);
     stats.hit(format!("c13.stream.wide.{kind}"));
@@ -1045,7 +1046,7 @@ pub fn generate(thorough: bool, rng: &mut Rng, ops: &mut Vec<String>, stats: &mu
     // wide shapes: more outstanding tree requests than any fixed queue bound of the streamer (hook and real check / prune)
     for i in 0..(if thorough { 12 } else { 2 }) {
         let mut r = rng.fork();
-        let kind = if i < 2 { i } else { r.below(3) };
+        let kind = if i < 2 { i } else if i < 4 { i + 1 } else { r.below(3) };
         ops.push(gen_stream_wide(&mut r, kind, stats));
     }
     for i in 0..(if thorough { 6 } else { 2 }) {
